@@ -13,7 +13,7 @@ CONSTANTS Wide,        \* FALSE: enumerate the pools; TRUE: draw parameters at r
           MaxCells,    \* cells outside the shared-formula block
           UseBlock,    \* BOOLEAN: may a shared-formula block be added
           MaxAttrs,    \* how many attribute channels get an entity-carrying value
-          Variants,    \* "all" | "few": pool of value encodings
+          Variants,    \* "all" | "few" | "inl": pool of value encodings
           EmitReplay
 
 NoIs == [rich |-> FALSE, runs |-> <<>>]
@@ -44,8 +44,13 @@ ValuesAll ==
     WithF(Txt("b", "1"), "normal", "1=1"), WithF(Txt("e", "#N/A"), "normal", "NA()"),
     WithF(V("", FALSE, "", "", -1, FALSE, NoIs, -1), "normal", "A1"), WithF(Num("", "7", B7, -1), "array", "SUM(A1:B1*2)"),
     WithF(Txt("str", "x<y"), "normal", "IF(A1<B1,\"x<y\",\"&\")") }
+(* runs of consecutive inline strings: one whose <t> carries xml:space="preserve" (outer blanks) followed by others that
+   do not, plain and rich, with a <v> cell and a shared string in between; positions are consecutive in document order,
+   in the same row and across rows *)
+ValuesInl == { Inl(Plain(" pad ")), Inl(Plain("hello")), Inl(Plain("b")), Inl(Rich(<<"ab ", "cd">>)), Inl(Rich(<<"x", "y">>)),
+               Txt("str", "text res") }
 ValuesFew == { Num("n", "1.5", B15, 1), Txt("str", "text res"), Inl(Plain("hello")), Inl(Plain("123")), Txt("b", "1") }
-Values == IF Variants = "all" THEN ValuesAll ELSE ValuesFew
+Values == IF Variants = "all" THEN ValuesAll ELSE IF Variants = "inl" THEN ValuesInl ELSE ValuesFew
 
 SstPool == { Plain("plain"), Plain("a&b<c>"), Plain("  padded  "), Rich(<<"run1 ", " run2">>), Plain("123"), Plain(""),
              Plain("s_x000A_t"), Rich(<<"a&b", "<c>">>) }
@@ -54,9 +59,11 @@ Xfs == << [id |-> 0, custom |-> FALSE, code |-> ""], [id |-> 14, custom |-> FALS
           [id |-> 164, custom |-> TRUE, code |-> "0.0\" <u>\""], [id |-> 2, custom |-> FALSE, code |-> ""] >>
 
 OptDefault == [spans |-> FALSE, dim |-> FALSE, tn |-> TRUE, ent |-> "named", spall |-> FALSE, rowr |-> TRUE,
-               applynf |-> "1", dense |-> FALSE]
+               applynf |-> "1", dense |-> FALSE, indent |-> FALSE, nosp |-> FALSE]
 OptToggles == << <<"spans", TRUE>>, <<"dim", TRUE>>, <<"tn", FALSE>>, <<"ent", "numeric">>, <<"spall", TRUE>>,
-                 <<"applynf", "absent">>, <<"dense", TRUE>>, <<"rowr", FALSE>> >>
+                 <<"applynf", "absent">>, <<"dense", TRUE>>, <<"rowr", FALSE>>,
+                 <<"indent", TRUE>>,     \* insignificant white space between the elements inside <row>, <c>, <is>, <r>, <si>
+                 <<"nosp", TRUE>> >>     \* no xml:space="preserve" anywhere: outer white space of a text is unprotected
 AttrDefault == [sheet |-> "Sheet1", ext |-> "", loc |-> "", dname |-> "", tcol |-> ""]
 Channels == <<"sheet", "ext", "loc", "dname", "tcol">>
 AttrPool == {"A&B", "<x> y", "it's", "q\"q", "a&amp;b"}
